@@ -211,3 +211,14 @@ Definition closed_reason (o : opts) (d : bytes) (cmd : bytes) : reason :=
   | _ => if negb (trimmed cmd) then RNotTrimmed
          else if scan_closed o d cmd then RClosed else ROther
   end.
+
+(** ** closed for the default delimiter with the delimiter kept in the text
+    Scanner.emit keeps the default delimiter in the statement text when OmitDelimiter is off, so
+    what strings.TrimSpace removes from [cmd ++ ";"] can only be at the START of [cmd]: [cmd] may
+    END in white space — e.g. the line break that ends a trailing line comment
+    ([INSERT ... -- seed row\n] followed by [;]).  Same walker, weaker trimming condition. *)
+Definition ltrimmed (cmd : bytes) : bool :=
+  match cmd with [] => false | _ => bytes_eqb (trim_left_space cmd) cmd end.
+Definition scan_closed_semi (o : opts) (cmd : bytes) : bool :=
+  negb (OmitDelimiter o) && ltrimmed cmd &&
+  cw o delimiter (S (length cmd)) true None 0 (length cmd) (cmd ++ follow delimiter).
